@@ -303,7 +303,8 @@ BUILTIN_EXC_PARENTS = {
     "KeyError": "LookupError", "IndexError": "LookupError", "LookupError": "Exception", "ValueError": "Exception",
     "TypeError": "Exception", "Exception": "BaseException", "NotImplementedError": "RuntimeError",
     "RuntimeError": "Exception", "UnicodeError": "ValueError", "AttributeError": "Exception", "StopIteration": "Exception",
-    "ZeroDivisionError": "ArithmeticError", "ArithmeticError": "Exception",
+    "ZeroDivisionError": "ArithmeticError", "ArithmeticError": "Exception", "JSONDecodeError": "ValueError",
+    "UnicodeDecodeError": "UnicodeError", "OverflowError": "ArithmeticError",
 }
 
 # --------------------------------------------------------------------------- abstract state
@@ -622,7 +623,15 @@ class Interp:
             truths = {{ast.Lt: s < 0, ast.LtE: s <= 0, ast.Gt: s > 0, ast.GtE: s >= 0}[type(op)] for s in ss}
             if len(truths) != 1:
                 raise NeedSplit(self.num(a) - self.num(b), "comparison %s of %r and %r is not decided by the abstract state%s" % (type(op).__name__, a, b, (" at " + norm(node)[:60]) if node is not None else ""))
-            return truths.pop()
+            res = truths.pop()
+            # path fact for the float-order prover: the program itself evaluated this comparison (on floats) and went this way
+            ta, tb = getattr(a, "tree", None), getattr(b, "tree", None)
+            if ta is not None and tb is not None:
+                facts = self.__dict__.setdefault("path_facts", [])
+                le_ab = (isinstance(op, (ast.Lt, ast.LtE)) and res) or (isinstance(op, (ast.Gt, ast.GtE)) and not res)
+                if len(facts) < 400:
+                    facts.append((ta, tb) if le_ab else (tb, ta))
+            return res
         if isinstance(a, Tup) and isinstance(b, Tup):
             c = self.tuple_cmp(a, b, node)
             return {ast.Lt: c < 0, ast.LtE: c <= 0, ast.Gt: c > 0, ast.GtE: c >= 0}[type(op)]
@@ -1568,8 +1577,21 @@ class Interp:
     def call_builtin(self, b: Builtin, args, kwargs, node=None):
         n = b.name
         recv = b.recv
+        bo = getattr(self, "builtin_overrides", None)
+        if bo and n in bo:
+            return bo[n](self, args, kwargs)
         if n in _BUILTIN_EXC:
             return ExcVal(n, args)
+        if n == "itertools.count":
+            start = self.index(args[0]) if args else 0
+            step = self.index(args[1]) if len(args) > 1 else 1
+
+            def counter():
+                k = start
+                while True:
+                    yield Lin.num(k)
+                    k += step
+            return IterVal(counter())
         if n == "len":
             v = args[0]
             if isinstance(v, (Lst, Tup, SetVal)):
